@@ -7,6 +7,7 @@ import (
 	"runtime"
 	"strings"
 	"sync"
+	"time"
 	"sync/atomic"
 
 	"github.com/akalin/gopar/gf2p16"
@@ -333,6 +334,82 @@ func c12Par2BodyOne(r *core.Rec, seed int64, sizes []int, slice, blocks, g, dmg,
 	return true
 }
 
+// c12FailedRepair: a Repair that has several files to rewrite and whose k-th file write fails. What it leaves on disk
+// and what it reports must be the same for every goroutine count - at the moment it returns and for good: whatever a
+// worker goroutine still writes after the call has returned shows as a directory that changes afterwards.
+func c12FailedRepair(r *core.Rec, seed int64, failAt int, procs int) {
+	old := runtime.GOMAXPROCS(procs)
+	defer runtime.GOMAXPROCS(old)
+	type obs struct {
+		err           string
+		paths         []string
+		atReturn, end map[string][]byte
+	}
+	run := func(gg int) *obs {
+		fs := envfs.New()
+		var paths []string
+		for i, n := range []int{40, 24, 33, 17, 29, 36} {
+			p := fmt.Sprintf("/d/f%d", i)
+			paths = append(paths, p)
+			fs.Put(p, scen.Content("uniq", seed, i, n, 8))
+		}
+		if err := par2.VerifCreate(fs, "/d/s.par2", paths, par2.CreateOptions{SliceByteCount: 8, NumParityShards: 30, NumGoroutines: 1}); err != nil {
+			r.Violatef("create-failed:"+errClass(err), "%v", err)
+			return nil
+		}
+		for _, p := range paths[:5] {
+			fs.Del(p) // five files to rewrite, all within capacity
+		}
+		k := 0
+		fs.Hook = func(index int, kind, path string, data []byte) *envfs.Fault {
+			if kind == "write" {
+				k++
+				if k == failAt {
+					return &envfs.Fault{Err: envfs.ErrInjected, Partial: -1, Kind: "error"}
+				}
+			}
+			return nil
+		}
+		o := &obs{}
+		pi := core.Catch(func() {
+			res, err := par2.VerifRepair(fs, "/d/s.par2", par2.RepairOptions{NumGoroutines: gg})
+			o.err, o.paths = errClass(err), res.RepairedPaths
+		})
+		o.atReturn = fs.Snapshot()
+		if pi != nil {
+			r.Violatef("repair-panic:"+pi.Frame, "g=%d write %d fails: %s", gg, failAt, pi.Value)
+			return nil
+		}
+		// give anything that is still running every chance to finish (one-sided: sequential code changes nothing here)
+		for i := 0; i < 200; i++ {
+			runtime.Gosched()
+		}
+		time.Sleep(15 * time.Millisecond)
+		o.end = fs.Snapshot()
+		r.AddTransitions(1)
+		return o
+	}
+	ref := run(1)
+	if ref == nil {
+		return
+	}
+	for _, gg := range []int{1, 2, 3, 4, 8} {
+		o := run(gg)
+		if o == nil {
+			return
+		}
+		if d := envfs.Diff(o.atReturn, o.end); len(d) > 0 {
+			r.Violatef("directory-changes-after-repair-returned", "g=%d, file write %d fails: %v changed after Repair had returned %q", gg, failAt, d, o.err)
+			return
+		}
+		if d := envfs.Diff(ref.end, o.end); len(d) > 0 || o.err != ref.err || fmt.Sprint(o.paths) != fmt.Sprint(ref.paths) {
+			r.Violatef("failed-repair-depends-on-goroutines", "file write %d fails: g=%d leaves %v different from g=1; result %q %v vs %q %v", failAt, gg, d, o.err, o.paths, ref.err, ref.paths)
+			return
+		}
+	}
+	r.AddStates(6)
+}
+
 func c12Gen(g *core.Gen) {
 	if raceEnabled {
 		// free-running pass under the race detector (separate build): same bodies, real scheduler
@@ -346,6 +423,9 @@ func c12Gen(g *core.Gen) {
 				for _, l := range []int{4, 36, 100} {
 					g.Emit(&c12Case{Kind: "race", Len: l, D: d, P: 2, GLo: 1, GHi: 9, Procs: procs})
 				}
+			}
+			for k := 1; k <= 3; k++ {
+				g.Emit(&c12Case{Kind: "failwrite", G: k, Procs: procs})
 			}
 			g.Emit(&c12Case{Kind: "race", Len: 0, Procs: procs})
 			g.Emit(&c12Case{Kind: "race", Len: -1, Procs: procs})
@@ -400,6 +480,12 @@ func c12Gen(g *core.Gen) {
 	for _, d := range []int{127, 128, 129, 130, 255, 256, 257, 300, 1000} {
 		for _, l := range []int{2, 4, 16, 18, 34, 64, 100} {
 			g.Emit(&c12Case{Kind: "partition", Len: l, D: d, P: 2, GLo: 1, GHi: 20})
+		}
+	}
+	// a Repair whose k-th file write fails, for every k and goroutine counts 1..8
+	for k := 1; k <= 5; k++ {
+		for _, procs := range []int{1, 4, 16} {
+			g.Emit(&c12Case{Kind: "failwrite", G: k, Procs: procs})
 		}
 	}
 	// the DEFAULT goroutine count (option 0 / negative: derived from the machine) under every GOMAXPROCS 1..4 and 16
@@ -539,6 +625,10 @@ func c12Run(ci interface{}, r *core.Rec) {
 		r.Count("race_detector_executions", n)
 		r.Outcome(fmt.Sprintf("race %d %d", c.Len, c.Procs))
 		r.NontrivialCase()
+	case "failwrite":
+		c12FailedRepair(r, r.Seed, c.G, c.Procs)
+		r.Outcome(fmt.Sprintf("failwrite %d", c.G))
+		r.NontrivialCase()
 	case "sched":
 		if c12SchedRun == nil {
 			r.Note("schedule case skipped: not an overlay build")
@@ -555,7 +645,7 @@ func init() {
 		Level:   "model_checking",
 		Rule: "(i) partition arithmetic, full product through the real GenerateParity/ReconstructData: every even shard length 2..600 (+1024..65550) x goroutine count 1..40 (and > number of 16-byte units) x codes (2,2),(3,2), and every even length 2..200 x g 1..16 x codes (6,5),(9,8) (several missing rows per goroutine), compared with g=1 (the data list is a window into a longer list whose entries behind it must stay untouched); every row count 1..40 x 64 KiB shards and 60..130 x 4 KiB shards x g 1..3; row counts {127..130,255..257,300,1000} x short shards {2..100} x g 1..19; the (3,2) code also with every input shard displaced to an odd address inside a larger buffer; " +
 			"(ii) controlled-scheduler exploration of the real worker goroutines (sources instrumented from the current tree and injected with go build -overlay): for encode and reconstruct configurations (workers x kernel calls), EVERY interleaving at kernel-call/synchronisation granularity (unbounded), and every interleaving with <=2 (thorough 3) preemptions at statement granularity; three configurations with 129/130 input shards at kernel granularity with <=1 preemption; per execution: output == single-goroutine bytes, recorded kernel access sets of different workers conflict-free, no deadlock; " +
-			"(iii) Create / Repair through par2 for g in 1..12, and for the default count (option 0 / -1) under GOMAXPROCS {1,2,3,4,16}, byte-identical to g=1, over three damage kinds (beyond capacity, one slice hit, shortest file deleted) x {no, each} recovery block spoiled inside a well-formed packet with DoubleCheck on; (iv) the same bodies free-running under the race detector (separate -race build, GOMAXPROCS 1,2,4,16; also codes with 129 and 300 input shards), plus four goroutines using matrices and coders of their own concurrently. non-trivial = executions with >=2 runnable threads at some choice point / g>1 cases",
+			"(iii) Create / Repair through par2 for g in 1..12, and for the default count (option 0 / -1) under GOMAXPROCS {1,2,3,4,16}, byte-identical to g=1, over three damage kinds (beyond capacity, one slice hit, shortest file deleted) x {no, each} recovery block spoiled inside a well-formed packet with DoubleCheck on; a Repair with five files to rewrite whose k-th file write fails (k = 1..5, g in {1,2,3,4,8}, GOMAXPROCS {1,4,16}): result and directory equal to g=1, and the directory does not change after the call has returned; (iv) the same bodies free-running under the race detector (separate -race build, GOMAXPROCS 1,2,4,16; also codes with 129 and 300 input shards), plus four goroutines using matrices and coders of their own concurrently. non-trivial = executions with >=2 runnable threads at some choice point / g>1 cases",
 		Assumptions: []string{"the controlled scheduler is sequentially consistent; weak-memory effects are covered only by the race-detector pass (no race => SC)", "scheduling points: spawn, exit, WaitGroup/Mutex operations, kernel calls, and (statement granularity) every statement of the instrumented files"},
 		NewCase:     func() interface{} { return &c12Case{} },
 		Gen:         c12Gen,
